@@ -743,10 +743,17 @@ pub fn gen(seed: u64, run: u64, tier: &str) -> Vec<Step> {
         let j = rng.usize_below(i + 1);
         caps.swap(i, j);
     }
+    // a second, different response travels through the same buffers in between, so that "what the
+    // previous message left" is a different (shorter or longer) message, not only this one or 0x7F
+    let other_kind = run.wrapping_mul(7).wrapping_add(3 + rng.below(10));
+    let other = random_spec(&mut rng, other_kind);
     for c in caps {
         let near = (c as i64 - size as i64).abs() <= 2 || c <= 3;
         let priors: &[u8] = if near { &[0, 1, 2, 3] } else { &[0, 3] };
         for pr in priors {
+            if *pr == 0 && rng.chance(1, 3) {
+                steps.push(Step::Respond(RespondSpec { resp: other.clone(), cap: c, prior: 0 }));
+            }
             steps.push(Step::Respond(RespondSpec { resp: spec.clone(), cap: c, prior: *pr }));
         }
     }
